@@ -217,6 +217,54 @@ let describe_matrix_by_key (what : string) (key1 : int -> string) (key2 : int ->
   | ((a, b), v, g) :: _ as l ->
       Printf.sprintf " [%s: %d cell(s) differ, e.g. (%s, %s): the inputs add up to %d, the merged result has %d]" what (List.length l) a b v g
 
+(* report only: a developer's merged file set by file name *)
+let describe_people_files (people : table) (merged : z list list) (r1 : couplesResult) (r2 : couplesResult) (out : couplesResult) : string =
+  let name l i = (try string_of_name (List.nth l i) with _ -> Printf.sprintf "<index %d>" i) in
+  let want : (int, string) Hashtbl.t = Hashtbl.create 64 in
+  let add (r : couplesResult) = List.iteri (fun i fs ->
+      match (try Some (int_of_z (List.assoc (List.nth r.cr_people i) people).final) with _ -> None) with
+      | Some w -> List.iter (fun f -> Hashtbl.add want w (name r.cr_files (int_of_z f))) fs
+      | None -> ()) r.cr_pf in
+  add r1; add r2;
+  let res = ref "" in
+  List.iteri (fun w fs ->
+      if !res = "" then begin
+        let got = List.sort_uniq compare (List.map (fun f -> name out.cr_files (int_of_z f)) fs) in
+        let exp = List.sort_uniq compare (Hashtbl.find_all want w) in
+        if got <> exp || List.length got <> List.length fs then begin
+          let missing = List.filter (fun x -> not (List.mem x got)) exp and extra = List.filter (fun x -> not (List.mem x exp)) got in
+          res := Printf.sprintf " [PeopleFiles of merged developer %d (%s): %d file(s) expected, %d listed; missing e.g. %s; unexpected e.g. %s]"
+              w (name merged w) (List.length exp) (List.length fs)
+              (match missing with x :: _ -> x | [] -> "-") (match extra with x :: _ -> x | [] -> "-")
+        end
+      end) out.cr_pf;
+  !res
+
+(* report only: the first (tick, developer) whose commits / lines differ from the sums of the inputs *)
+let describe_devs (people : table) (r1 : devsResult) (r2 : devsResult) (o1 : z) (o2 : z) (out : devsResult) : string =
+  let want : (int * int, int * int * int * int) Hashtbl.t = Hashtbl.create 256 in
+  let add (r : devsResult) off = List.iter (fun (t, dd) -> List.iter (fun (d, s) ->
+      let d = int_of_z d in
+      let nd = if d = 262142 then d else (try int_of_z (List.assoc (List.nth r.dr_people d) people).final with _ -> -1) in
+      let k = (int_of_z t + int_of_z off, nd) in
+      let (c, a, rm, ch) = (try Hashtbl.find want k with Not_found -> (0, 0, 0, 0)) in
+      Hashtbl.replace want k (c + int_of_z s.dt_commits, a + int_of_z s.dt_ls.ls_added, rm + int_of_z s.dt_ls.ls_removed, ch + int_of_z s.dt_ls.ls_changed)) dd) r.dr_ticks in
+  add r1 o1; add r2 o2;
+  let got : (int * int, int * int * int * int) Hashtbl.t = Hashtbl.create 256 in
+  List.iter (fun (t, dd) -> List.iter (fun (d, s) ->
+      Hashtbl.replace got (int_of_z t, int_of_z d) (int_of_z s.dt_commits, int_of_z s.dt_ls.ls_added, int_of_z s.dt_ls.ls_removed, int_of_z s.dt_ls.ls_changed)) dd) out.dr_ticks;
+  let diffs = ref [] in
+  Hashtbl.iter (fun k v -> match Hashtbl.find_opt got k with
+      | Some g when g = v -> ()
+      | g -> diffs := (k, Some v, g) :: !diffs) want;
+  Hashtbl.iter (fun k g -> if not (Hashtbl.mem want k) then diffs := (k, None, Some g) :: !diffs) got;
+  let show = function None -> "no entry" | Some (c, a, r, ch) -> Printf.sprintf "commits %d, lines +%d -%d ~%d" c a r ch in
+  match List.sort compare !diffs with
+  | [] -> " [the commit and line totals per (tick, developer) agree: a per-language figure or a duplicate key differs]"
+  | ((t, d), v, g) :: _ as l ->
+      Printf.sprintf " [%d (tick, developer) entries differ, e.g. tick %d developer %d: the inputs add up to (%s), the merged result has (%s)]"
+        (List.length l) t d (show v) (show g)
+
 (* big cases go through extracted list functions that are not tail recursive: run with a large stack *)
 let () =
   if Sys.getenv_opt "VERIF_DRIVER_STACK" = None then begin
@@ -264,7 +312,8 @@ let () =
                   if List.map string_of_name gd.dr_people <> List.map string_of_name merged then
                     propfail id "devs: the merged developer list is not the merged identity list"
                   else if not ((if fast then dv_conserve_fast_b else dv_conserve_b) people merged r1 r2 o1 o2 gd) then
-                    propfail id "devs: a figure of the merged result is not the sum of the inputs per aligned tick and merged developer (or a total differs)";
+                    propfail id ("devs: a figure of the merged result is not the sum of the inputs per aligned tick and merged developer (or a total differs)"
+                                 ^ describe_devs people r1 r2 o1 o2 gd);
                   if canon_devs gd <> canon_devs md then mismatch id "devs: merged result differs from the model")
          | "couples" ->
              let r1 = couples_of_sx r1s and r2 = couples_of_sx r2s in
@@ -291,7 +340,8 @@ let () =
                     let devo i = if i >= List.length merged then "<unmatched developer>" else nth_name merged i in
                     propfail id ("couples: a matrix cell, a line count or a developer's file set of the merged result is not the sum/union of the inputs re-indexed by file name and merged identity"
                       ^ describe_matrix_by_key "FilesMatrix by file name" (nth_name r1.cr_files) (nth_name r2.cr_files) (nth_name gc.cr_files) r1.cr_fm r2.cr_fm gc.cr_fm
-                      ^ describe_matrix_by_key "PeopleMatrix by merged developer" (dev r1.cr_people) (dev r2.cr_people) devo r1.cr_pm r2.cr_pm gc.cr_pm)
+                      ^ describe_matrix_by_key "PeopleMatrix by merged developer" (dev r1.cr_people) (dev r2.cr_people) devo r1.cr_pm r2.cr_pm gc.cr_pm
+                      ^ describe_people_files people merged r1 r2 gc)
                   end;
                   if canon_couples gc <> canon_couples mc then mismatch id "couples: merged result differs from the model")
          | "burndown" ->
